@@ -5,6 +5,7 @@
 //!   DIR/report.json (oracle failures, coverage counts, samples).
 //! harness replay FILE
 //!   re-runs the game stored in a replay file on the real code and prints what it observes.
+mod crafted;
 mod enc;
 mod feat;
 mod gens;
@@ -146,11 +147,12 @@ fn campaign(a: &Args, rng: &mut Rng, rep: &mut Report, sink: &mut Sink) {
             for k in 0..250 * sc {
                 let (b, side) = random_position(rng, [2, 3, 4, 6][k % 4], true, k % 2 == 0);
                 if let Some(mut g) = mk_game(&b, side, "3") {
-                    let mut player = Player::new(if k % 5 == 4 { Policy::PassOften } else { Policy::RepSeek }, true);
+                    let mut player = Player::new(if k % 5 == 4 { Policy::PassOften } else if k % 5 >= 2 { Policy::Restore } else { Policy::RepSeek }, true);
                     playout(&mut g, &mut player, 160, rng, rep, sink, Emit { obs_pm: 120, all_t_pm: 50 });
                 }
             }
             run_positions(rng, 40 * sc, &[10, 24], &[Policy::RepSeek, Policy::Capture], 120, false, rep, sink, Emit { obs_pm: 100, all_t_pm: 50 });
+            crafted::run(rng, 4000 * sc, rep, sink);
         }
         "C08" => {
             for _ in 0..5 * sc {
@@ -304,7 +306,15 @@ fn cmd_replay(file: &str) {
     rep.max_fails = 1000;
     let mut sink = Sink { ops: Box::new(std::io::sink()), exp: Box::new(std::io::sink()), lines: 0, kinds: Default::default() };
     let mut rng = Rng::new(0);
-    replay_game_text(&t, &mut rep, &mut sink, Emit { obs_pm: 0, all_t_pm: 0 }, &mut rng);
+    if let Some(seed) = t.trim().strip_prefix("CRAFT ").and_then(|x| x.split_whitespace().next()).and_then(|x| x.parse::<u64>().ok()) {
+        let mut r = Rng(seed);
+        if let Some((s, _)) = crafted::craft(&mut r) {
+            println!("constructed state (GameState::new / PlayPhase::new):\n{}step {} status {:?} history length {}", s, s.current_step(), s.unwrap_play_phase().push_pull_state(), s.unwrap_play_phase().hash_history().len());
+            crafted::check(&s, seed, &mut rep);
+        }
+    } else {
+        replay_game_text(&t, &mut rep, &mut sink, Emit { obs_pm: 0, all_t_pm: 0 }, &mut rng);
+    }
     for f in &rep.fails {
         println!("FAIL property={} {} after {} actions: {}", f.prop, f.what, f.actions.len(), f.detail);
     }
